@@ -1124,7 +1124,7 @@ class Processor:
                         *slice(intmin, intmax).indices(len(data))
                     ):
                         sliced_elements.append(NodeCoords(
-                            data[slice_index], data, intmin,
+                            data[slice_index], data, slice_index,
                             translated_path + "[{}]".format(slice_index),
                             ancestry + [(data, slice_index)], pathseg))
                     yield NodeCoords(
